@@ -35,7 +35,16 @@ def group_by(items, key):
 def score(ad, env, td_final, hists, scale):
     """reward via the public get_reward path, checker verdict per row"""
     acts = torch.tensor(hists, dtype=torch.long)
-    rew = ad.get_reward(env, td_final, acts)
+    try:
+        rew = ad.get_reward(env, td_final, acts)
+    except Exception:
+        # the reward call of the code under test raised: row by row, a crashed row is logged as inexact reward
+        rew = []
+        for r in range(len(hists)):
+            try:
+                rew.append(float(ad.get_reward(env, td_final[r:r + 1], acts[r:r + 1])[0]))
+            except Exception:
+                rew.append(float("nan"))
     out = []
     try:
         ad.check(env, td_final, acts)
